@@ -590,6 +590,10 @@ def stepOp (wrong : Bool) (d : DState) (op : List String) (out : String) : DStat
     | some (p, ska) =>
       let rmax := (kvOf rest "rmax").bind (·.toNat?)
       let (mon, fs) := monStep d.mon (.brokerWrite d.now p ska)
+      -- MQTT 5: a successful CONNACK's receive_maximum lowers the limit the gate monitor judges by
+      let mon := match d.ls.ver, p, rmax with
+        | .v5, .connack _ 0, some r => (monStep mon (.receiveMax r)).1
+        | _, _, _ => mon
       let d := { d with mon := mon }
       let d := match d.ls.net with
         | some n => { d with ls := { d.ls with net := some { n with rx := n.rx ++ [p] } } }
